@@ -79,6 +79,14 @@ def main():
         elif os.path.exists(frag):
             e = json.load(open(frag))
             e["property_id"] = pid
+            if isinstance(e.get("engine"), list):
+                e["engine"] = " + ".join(str(x) for x in e["engine"])
+            for k in list(e):
+                if k not in ("property_id", "quick_cmd", "thorough_cmd", "evidence_file", "replay_cmd_template", "engine", "level_claimed", "level_note", "technique"):
+                    del e[k]
+            for k in ("level_note", "technique", "quick_cmd", "thorough_cmd", "replay_cmd_template", "evidence_file"):
+                if k in e and not isinstance(e[k], str):
+                    e[k] = json.dumps(e[k])
             checks.append(e)
         else:
             na.append({"property_id": pid, "reason": "check built but its manifest entry is not written yet"})
@@ -108,6 +116,8 @@ def main():
     with open(os.path.join(VERIF, "MANIFEST.json"), "w") as f:
         json.dump(man, f, indent=1)
         f.write("\n")
+    r = subprocess.run(["python3-vt", "-c", "import json,jsonschema; jsonschema.validate(json.load(open('/verif/MANIFEST.json')), json.load(open('/root/.vp/MANIFEST.schema.json'))); print('MANIFEST validates')"], capture_output=True, text=True)
+    print(r.stdout.strip() or r.stderr.strip()[-800:])
     print("claimed:", [c["property_id"] for c in checks])
     print("not yet:", [n["property_id"] for n in na])
 
